@@ -2,7 +2,7 @@
 """Regenerates /verif/MANIFEST.json from the table below (keeps it valid and in one place)."""
 import json, subprocess
 
-HOOK_COMMITS = ["2d93e58"]  # filled in as hook commits are made in /repo
+HOOK_COMMITS = ["2d93e58", "7eef3a9"]  # filled in as hook commits are made in /repo
 
 CHECKS = {
  "C19": dict(cat="exploration", technique="runtime lockstep differential monitor (memoized vs plain store), deterministic scheduler at build-tag guarded yield hooks enumerating writer/reader interleavings by re-execution, and porcupine-checked stress histories under the race detector",
